@@ -143,8 +143,7 @@ class C14(flow.Spec):
                        "which leaves a partial block buffered (curlen_ != 0 in the trace) and the total length is >= 1; "
                        "a siphash line when the message has >= 1 byte; a case is counted once per distinct text")
     assumptions = [
-        "rol32/ror32/rol64/ror64 (x86 rol/ror instructions via inline asm) are bit rotations; load/store helpers "
-        "(load32, store64l, …) are the byte-order conversions their names say (modelled by beWord/leWord/beBytes/leBytes)",
+        "rol32/ror32/rol64/ror64 (x86 rol/ror instructions via inline asm) are bit rotations",
         "messages shorter than 2^61 bytes (length_ is a 64-bit bit counter; SHA-512's upper 64 length bits are zero by design) "
         "and every process() call with size < 2^32 (the API type; the string_view overloads truncate size_t to 32 bits)",
         "each object is finalised once (digest()/digest_hex()/digest_hex_uc()/finalize() mutate the state; a second call "
